@@ -385,6 +385,76 @@ def r_feature_and_shape(repo, rep, R='R19.4'):
     return nfeat, nshape
 
 
+def label_guarded_shape_reads(tree):
+    """-> [(label, attribute node)]: `X.cat.left` / `.right` / `.slash` read where the only thing known about X is its rule
+    label (`if X.op_string == 'conj':`): the printer relies on every rule with that label returning a functor category."""
+    out = []
+    for n in ast.walk(tree):
+        if not (isinstance(n, ast.Attribute) and n.attr in ('left', 'right', 'slash') and isinstance(n.value, ast.Attribute) and n.value.attr == 'cat'):
+            continue
+        base = src(n.value.value)
+        cur = n
+        while getattr(cur, '_parent', None) is not None and not isinstance(cur, (ast.FunctionDef, ast.Lambda)):
+            par = cur._parent
+            if isinstance(par, (ast.If, ast.IfExp)) and (cur in par.body if isinstance(par, ast.If) else cur is par.body):
+                for t in ([par.test] if not (isinstance(par.test, ast.BoolOp) and isinstance(par.test.op, ast.And)) else par.test.values):
+                    if isinstance(t, ast.Compare) and len(t.ops) == 1 and src(t.left) == base + '.op_string':
+                        c = t.comparators[0]
+                        if isinstance(t.ops[0], ast.Eq) and isinstance(c, ast.Constant) and isinstance(c.value, str):
+                            out.append((c.value, n))
+                        elif isinstance(t.ops[0], ast.In) and isinstance(c, (ast.Tuple, ast.List, ast.Set)):
+                            out += [(e.value, n) for e in c.elts if isinstance(e, ast.Constant) and isinstance(e.value, str)]
+            cur = par
+    return out
+
+
+def _functor_result(o, params):
+    """is the category of this outcome a functor on every input the path admits?"""
+    t = o.result['cat']
+    v = sc.absval(t, None, params)
+    if v[0] == 'fn':
+        return True
+    if v[0] == 'litcat':
+        return '/' in v[1] or '\\' in v[1]
+    if v[0] == 'in':
+        for c, pol in o.conds:
+            if pol and c[0] == 'cmp' and c[1] == '==' and c[2] == N(v[1]) and c[3][0] == 'const' and isinstance(c[3][1], str) and ('/' in c[3][1] or '\\' in c[3][1]):
+                return True
+            if pol and c[0] == 'cmp' and c[1] == 'in' and c[2] == N(v[1]) and c[3][0] in ('tuple', 'list', 'set') and c[3][1] and \
+                    all(e[0] == 'const' and isinstance(e[1], str) and ('/' in e[1] or '\\' in e[1]) for e in c[3][1]):
+                return True
+            if pol and c[0] == 'attr' and c[1] == N(v[1]) and c[2] == 'is_functor':
+                return True
+    return False
+
+
+def r_label_shape(repo, rep, R='R19.4'):
+    """the printers read the parts of a category under nothing but a test of the rule label: every rule of a grammar that emits the
+    label must then return a functor, or the format raises AttributeError on the atomic result."""
+    n = 0
+    from ..core import attach_parents
+    for rel in repo.py_files('depccg/printer'):
+        mod = repo.module(rel)
+        attach_parents(mod.tree)
+        reads = label_guarded_shape_reads(mod.tree)
+        for label in sorted({l for l, _ in reads}):
+            nodes = [x for l, x in reads if l == label]
+            for lang, grel in (('en', rg.EN), ('ja', rg.JA)):
+                g = repo.module(grel)
+                for name, fn in combinator_functions(g):
+                    params = [a.arg for a in fn.args.args]
+                    for o in sc.outcomes(fn):
+                        if not isinstance(o.result, dict) or o.result['op_string'] != C(label):
+                            continue
+                        n += 1
+                        rep.check(_functor_result(o, params), R, '%s:%s %s' % (grel, getattr(o.node, 'lineno', fn.lineno), name),
+                                  '%s:%s:label-shape:%s' % (grel, name, label),
+                                  '%s: the result labelled %r is a functor (%s); %s:%s reads `%s` under that label' % (name, label, show(o.result['cat'])[:40], rel, nodes[0].lineno, src(nodes[0])),
+                                  '%s: returns %s labelled %r, which need not be a functor, but %s:%s reads `%s` of every node with that label: '
+                                  'AttributeError on an atomic result and the whole batch is not rendered' % (name, show(o.result['cat'])[:40], label, rel, nodes[0].lineno, src(nodes[0])))
+    return n
+
+
 def check(repo, rep, tier):
     rep.rule('R19.1', 'label closure: labels the grammars can emit are keys of the Prolog tables indexed with them')
     rep.rule('R19.2', 'every --format choice is dispatched by to_string')
@@ -427,5 +497,6 @@ def check(repo, rep, tier):
     from .c07 import r_conll_heads
     r_conll_heads(repo, rep, 'R19.6')
     nf, ns = r_feature_and_shape(repo, rep)
+    rep.floor('rule results whose shape a printer relies on by label', r_label_shape(repo, rep), 2)
     rep.floor('feature member reads in printers', nf, 1)
     rep.floor('shape-specific reads in category printers', ns, 10)
